@@ -1,6 +1,6 @@
 (* C08 obligations.  Statements only; proofs are in SacnTrack/SacnProofs/SacnThms/ArtProofs. *)
 From OlaBase Require Import Bytes.
-From C08 Require Import Gen Model Spec SacnThms TextSpec TextCheck ArtDistinct Final.
+From C08 Require Import Gen Model Spec SacnThms TextSpec TextCheck ShadowThm ArtDistinct ArtStep Final.
 Local Open Scope N_scope.
 
 (* the property's literal numbers are the constants of the checked-out tree *)
@@ -194,6 +194,44 @@ Theorem c08_sacn_wire :
 Proof. exact c08_sacn_wire_l. Qed.
 Print Assumptions c08_sacn_wire.
 
+(* sACN, exact refinement of the property text.  [cstep] (TextCheck.v) is the loop the driver runs: the
+   receiver model, the text-level state with shadow flags and the verdict after EVERY packet (data,
+   discarded, ignored, non-data framing PDUs).  For every history with non-decreasing times, byte
+   sequence numbers and G_cap at every data packet (at most five unshadowed live other sources when a
+   packet arrives at their priority - beyond that the text does not say which six are merged) the
+   verdict is never 3: after every packet the registered buffer equals the text-level output
+   (verdict 0), or the text-level output without the shadowed sources (verdict 1 = known finding
+   hand-down gap), or - on a packet that triggered no merge - the unshadowed output of the last merge
+   (verdict 2 = known finding stale after discard); see c08_text_checker for what the verdicts assert.
+   The text state follows the receiver at the two documented points (sequence window of a timed-out
+   source: text ambiguity; behind-packet of a shadowed source accepted: known finding sequence window
+   forgotten, flag d4).  Proved through the invariant: tracked sources = live, unshadowed text sources,
+   all at the active priority (ShadowRel.relx). *)
+Theorem c08_sacn_refines_text :
+  forall (c : cfg) (h : hist),
+    cguards c 0 init_cst h ->
+    forall v, In v (cverdicts c init_cst h) -> v = 0 \/ v = 1 \/ v = 2.
+Proof. exact c08_sacn_refines_text_l. Qed.
+Print Assumptions c08_sacn_refines_text.
+
+(* Art-Net, refinement of the property text (TextCheck.atext_step: per sender address the last
+   accepted frame and its time; a packet is let in iff fewer than two OTHER senders were heard within
+   the last 10 s; the output is that frame in LTP mode and the slot-wise maximum over the
+   senders heard within 10 s in HTP mode).  For every history with non-decreasing times whose sender
+   addresses are not the wildcard 0.0.0.0 (the receiver's empty-slot marker; explicit guard), the next
+   packet runs the data callback iff the text lets it in, and then the port buffer EQUALS the text-level
+   output; a packet the text refuses (third concurrent sender, or not an ArtDmx for this port)
+   runs no callback (that it changes nothing at all is c08_artnet_third).  The merge mode is that of the configuration [c] throughout. *)
+Theorem c08_artnet_refines_text :
+  forall (c : acfg) (h : list (N * apkt)) (now : N) (k : apkt),
+    aguards 0 h -> alast 0 h <= now -> k_addr k <> 0 ->
+    let port := arun c init_aport h in
+    let G := snd (arun2 c init_aport [] h) in
+    (snd (atext_step c now G k) = None <-> snd (art_handle c now port k) = false) /\
+    (forall out, snd (atext_step c now G k) = Some out -> ap_buf (fst (art_handle c now port k)) = out).
+Proof. exact c08_artnet_refines_text_l. Qed.
+Print Assumptions c08_artnet_refines_text.
+
 (* hypotheses are satisfiable / the theorems are not vacuous *)
 Definition ex_pkt (cid prio seq : N) (term : bool) (slots : list N) : pkt :=
   mkPkt 2 cid prio seq 1 false term false 161
@@ -281,3 +319,17 @@ Example ex_departure_returning_sender :
   u_buf (fst (handle ex_cfg 3000100 (run ex_cfg init_ust h) p)) = [1] /\
   text_out 3000100 (tstep ex_cfg 3000100 (trun ex_cfg [] h) p) = [7].
 Proof. vm_compute. repeat split; reflexivity. Qed.
+
+(* the guards of c08_sacn_refines_text hold on the three departure histories and the verdicts are the
+   classified ones *)
+Example ex_exact_handdown :
+  let h := [(100, true, ex_pkt 1 100 0 false [9]); (200, true, ex_pkt 2 200 0 false [1]);
+            (300, true, ex_pkt 2 200 1 true [1])] in
+  cguards ex_cfg 0 init_cst h /\ cverdicts ex_cfg init_cst h = [0; 0; 1].
+Proof. vm_compute. repeat split; try discriminate; reflexivity. Qed.
+
+Example ex_exact_stale :
+  let h := [(100, true, ex_pkt 1 100 0 false [9; 0]); (100, true, ex_pkt 2 100 5 false [1; 200]);
+            (2500101, true, ex_pkt 2 100 4 false [1; 1])] in
+  cguards ex_cfg 0 init_cst h /\ cverdicts ex_cfg init_cst h = [0; 0; 2].
+Proof. vm_compute. repeat split; try discriminate; reflexivity. Qed.
